@@ -180,9 +180,14 @@ func (d *drv) random(t int, rnd *rand.Rand, perTrace int) {
 			d.expr(selgen.CharMutate(rnd, selgen.Join(toks, st)), "cmut")
 		}
 	}
+	for i := 0; i < 6; i++ {
+		st := selgen.PlainStyle()
+		d.expr(selgen.Join(selgen.Tokens(g.SameLabelShape(), st), st), "shape")
+	}
 	for _, s := range []string{"", " ", "\t", "()", "(", ")", "!", "&&", "a", "a ==", `a == "`, `a == 'x`, "has()", "has(", "all(", "global(",
 		"all( )", "global(\t)", "has( a )", "a in {}", "a not in {}", "a notin {}", `a in {"x",}`, `a in {,}`, `a in {"x" "y"}`, "\n",
-		`has(a) has(b)`, `all() )`, `a == "b")`, `a in {"x"} }`, `a == "b" "c"`, `a not in {"a","a","b","b","c"}`, `a in {"c","b","b","a"}`,
+		`tier in {"bronze","gold","silver"} && (tier == 'silver' || tier == 'gold')`, `(a == "xy" || a == "x") && a in {"x","xy"}`,
+		`a in {"x","xy"} && (a == "xy" || a == "x")`, `has(a) has(b)`, `all() )`, `a == "b")`, `a in {"x"} }`, `a == "b" "c"`, `a not in {"a","a","b","b","c"}`, `a in {"c","b","b","a"}`,
 		`a not in {"b","a"}`, `!(!has(a))`, `!(!(!has(a)))`, `!((!has(a)))`, `!( !a == "x" )`, `!(!(a == "x" && has(b)))`, `!(!(!(!all())))`, `!!(!has(a))`, `!(!!has(a))`,
 		`a == "x"` + "\n", strings.Repeat("a", 512) + ` == "x"`, strings.Repeat("a", 513) + ` == "x"`, "has(" + strings.Repeat("b", 513) + ")"} {
 		d.expr(s, "fixed")
